@@ -185,7 +185,8 @@ def build_asan(bin_name):
     env = dict(os.environ, CARGO_NET_OFFLINE="true", RUSTFLAGS="-Zsanitizer=address",
                CARGO_TARGET_DIR=os.path.join(HARNESS, "target-asan"))
     try:
-        r = subprocess.run(["cargo", "+nightly", "build", "--offline", "--target", "x86_64-unknown-linux-gnu", "--bin", bin_name],
+        r = subprocess.run(["cargo", "+nightly", "build", "--offline", "--target", "x86_64-unknown-linux-gnu", "--bin", bin_name,
+                            "--features", "no-resalloc"],
                            cwd=HARNESS, env=env, stdout=subprocess.PIPE, stderr=subprocess.STDOUT, text=True, timeout=1200)
     except Exception:
         return None
